@@ -59,14 +59,14 @@ fn no_format(_args: core::fmt::Arguments<'_>) -> String {
 
 // @harness
 // @prop C15
-// @tier quick
-// @timeout 1500
+// @tier thorough
+// @timeout 6000
 // @fn Vtx::load (identifier, stereo byte, header fields, strings-block scan, strings re-read)
 // @sym every byte of a VTX file of 16, 18 or 19 bytes (header + 0, 2 or 3 bytes of strings block; length literal per case)
 // @assert for any bytes the loader returns (no panic, no arithmetic overflow, no out-of-bounds) and never keeps polling the reader after the end of the file (which would be an endless loop on a truncated file); a header with player frequency 0 is rejected before the strings block is read; with at most 5 strings bytes the LH5 decoder is not reached, so the result must be an error
 // @bound files of 16/18/19 bytes (unwind 26); with at most 3 strings bytes five terminators cannot be found, so the LH5 decoder is never reached; longer strings blocks and the LH5 body are outside
 // @stub alloc::fmt::format -> empty string (error message formatting is not the subject)
-// @outside delharc LH5 decoding; allocation size of the frame buffer (read off the code: sized by a 32-bit header field, see DESIGN.md)
+// @outside (tier) the query encodes the LH5 decoder and from_utf8_lossy behind the strings scan although the bounded files can never reach them - it needs > 25 min, hence thorough tier only; delharc LH5 decoding itself; allocation size of the frame buffer (read off the code: sized by a 32-bit header field, see DESIGN.md)
 #[kani::proof]
 #[kani::unwind(26)]
 #[kani::stub(alloc::fmt::format, no_format)]
